@@ -101,6 +101,13 @@ impl Tf {
             _ => None,
         }
     }
+    pub fn decode_signed(self, e: f64) -> f64 {
+        if e < 0.0 {
+            -self.decode(-e)
+        } else {
+            self.decode(e)
+        }
+    }
     /// sign-mirrored extension used by colour pipelines for out-of-gamut values
     pub fn encode_signed(self, x: f64) -> f64 {
         if x < 0.0 {
